@@ -25,7 +25,9 @@ from harness.common import Machinery, Report, quiet_gallia_logging
 from harness.enum import ListChooser, explore
 from harness.fakes import ScriptedTransport, ScriptEnv, task_name
 
-SCRIPTS = ["imm", "pend", "tmo", "late", "err"]
+# "pendslow": ResponsePending, then 2.5 s of silence (five polls), then the final reply: the exchange stays open
+# for longer than any keep-alive interval while the caller holds the client
+SCRIPTS = ["imm", "pend", "tmo", "late", "err", "pendslow"]
 TP_ID = 9000
 
 
@@ -62,6 +64,7 @@ class MutexEnv(ScriptEnv):
         self.cur: bytes = b""
         self.plan = "imm"
         self.pend_sent = False
+        self.silent_polls = 0
         self.calls: dict[str, int] = {}
         self.cancel_hook: Any = None
 
@@ -76,6 +79,7 @@ class MutexEnv(ScriptEnv):
         self.cur = bytes(data)
         self.plan = self.scripts[self.ch.choose(len(self.scripts))]
         self.pend_sent = False
+        self.silent_polls = 0
         return None
 
     def on_read(self, timeout: float | None) -> tuple[str, bytes | None]:
@@ -84,6 +88,14 @@ class MutexEnv(ScriptEnv):
             return "Stale", self.stale.pop(0)
         p = self.plan
         if p == "imm" or (p == "pend" and self.pend_sent):
+            return "Final", reply_for(self.cur)
+        if p == "pendslow":
+            if not self.pend_sent:
+                self.pend_sent = True
+                return "Pending", bytes([0x7F, self.cur[0], 0x78])
+            self.silent_polls += 1
+            if self.silent_polls <= 5:
+                return "Timeout", None
             return "Final", reply_for(self.cur)
         if p == "pend":
             self.pend_sent = True
@@ -271,7 +283,7 @@ def run(tier: str, seed: int) -> Report:
     three = ["c1", "c2", "c3"]
     for order in itertools.permutations(two):
         plans.append((list(order), {"c1": "req", "c2": "req"}, False, 0, SCRIPTS))
-        plans.append((list(order), {"c1": "req", "c2": "req"}, True, 0, ["imm", "pend", "late"]))
+        plans.append((list(order), {"c1": "req", "c2": "req"}, True, 0, ["imm", "pend", "late", "pendslow"]))
         plans.append((list(order), {"c1": "req", "c2": "reconnect"}, False, 1, ["imm", "late", "err"]))
     for order in itertools.permutations(three):
         plans.append((list(order), {"c1": "req", "c2": "req", "c3": "req"}, False, 0,
